@@ -88,8 +88,18 @@ def run(ctx):
                         bad = []
                         for cfn, cbb, ct in sites:
                             ca = prov.prov_of(cfn).call_args(cbb)
-                            if pp[0] > len(ca) or not from_converted(ca[pp[0] - 1]):
+                            if pp[0] > len(ca):
                                 bad.append(cfn.path)
+                                continue
+                            av = ca[pp[0] - 1]
+                            if from_converted(av):
+                                continue
+                            # the caller may itself be a helper that received the map: then each of ITS callers hands over the converted map
+                            ap = as_param_path(av)
+                            if ap is not None and ap[1] == ('is_convert',) and ap[0] <= len(cfn.j.get('inputs', [])) and \
+                                    cfn.j['inputs'][ap[0] - 1].get('to_adt') == BM and F.callers().get(cfn.path) and not entries.always_converted(F, cfn, ap[0]):
+                                continue
+                            bad.append(cfn.path)
                         ctx.require(bool(sites) and not bad, 'C14-R1', key, 'is_convert is a parameter; every one of the %d callers passes <convert_ref(..)>.is_convert' % len(sites),
                                     fn.where(s['ln']), bad='%s receives is_convert as a parameter, but %s pass(es) something other than the converted map\'s flag' % (fn.path, bad or 'no caller'))
                         continue
@@ -240,7 +250,79 @@ def kind_summary(F, fn):
     return None
 
 
+def path_kind_summary(F, fn):
+    """like kind_summary, for a counter update routed through a per-object delta value (`Counts::of(h).add_to(attrs)`): the helpers of the module are
+    inlined and every acyclic path is summarised — object kind taken at the kind switch, the increment of each attribute counter resolved along the path
+    (through struct literals, `..CONST` updates, references); all paths of one kind must agree.  Increments of 0 are no increments."""
+    import arms
+    import inline
+    import re as _re
+    mod = fn.path.rsplit('::', 2)[0] if fn.self_adt else fn.path.rsplit('::', 1)[0]
+    same_mod = lambda h: not h.impl_trait and h.kind != 'Closure' and h.path.startswith(mod) and len(h.blocks) < 60
+    g = inline.inlined(F, fn, depth=2, force=same_mod, stop=lambda h: not same_mod(h))
+    if g is fn:
+        return None
+    P = prov.prov_of(g)
+    kind_sw = None
+    for bb, info in arms.enum_switches(g):
+        op = g.blocks[bb]['t']['discr']
+        d = P.reaching(op['p']['l'], bb, len(g.blocks[bb]['s']))
+        if d and d[0].kind == 'assign' and d[0].data['rv'].get('adt') == OSU_KIND:
+            kind_sw = (bb, info)
+            break
+    paths = arms.feasible_paths(g) if kind_sw else None
+    if not paths:
+        return None
+    per = {}
+    for p in paths:
+        if kind_sw[0] not in p.blocks[:-1]:
+            return None
+        nxt = p.blocks[p.blocks.index(kind_sw[0]) + 1]
+        labs = [lab for lab, tgt in kind_sw[1]['edges'] if tgt == nxt]
+        eff = []
+        for i, bb in enumerate(p.blocks):
+            for si, s_ in enumerate(g.blocks[bb]['s']):
+                if s_['k'] != 'assign':
+                    continue
+                fs = [e for e in s_['p'].get('proj', []) if isinstance(e, dict) and e.get('adt') == OSU_ATTR]
+                if not fs or s_['rv']['k'] != 'use' or s_['rv']['op'].get('k') not in ('copy', 'move'):
+                    continue
+                # the stored value is (old + X).0: find the addition on this path
+                src = s_['rv']['op']['p']
+                d = arms._last_def(g, p.blocks, i, si, src['l'])
+                if d is None or d[0] != 'assign' or d[1]['rv']['k'] != 'binop' or not d[1]['rv']['op'].startswith('Add'):
+                    eff.append((fs[0]['f'], '?'))
+                    continue
+                _, bs, bk, bj = d
+                r = arms.path_resolve(g, p.blocks, bk, bj, bs['rv']['b'])
+                if r is None:
+                    txt = '?'
+                elif r[0] == 'const':
+                    txt = str(r[1])
+                else:
+                    _, o2, k2, j2 = r
+                    v = P.operand(o2, p.blocks[k2], j2 if j2 is not None else len(g.blocks[p.blocks[k2]]['s']))
+                    txt = prov.show(v, maxdepth=4)
+                    txt = _re.sub(r'param#\d+|\(\*?_\d+\)', '_', txt)
+                    txt = _re.sub(r'\(…[^)]*\)|…', '_', txt)
+                if txt != '0':
+                    eff.append((fs[0]['f'], txt))
+        for lab in labs:
+            per.setdefault(lab, set()).add(tuple(sorted(eff)))
+    if any(len(v) != 1 for v in per.values()) or not any(e for v in per.values() for e in v):
+        return None
+    out = {lab: list(next(iter(v))) for lab, v in per.items()}
+    out['*'] = []
+    return out
+
+
+def _normalised(s):
+    """per kind: the arm's own increments plus those made for every object"""
+    return {k: sorted(list(v) + list(s.get('*', []))) for k, v in s.items() if k != '*'}
+
+
 def r3(ctx, F):
+    import arms
     sums = {}
     for fn in F.fns:
         if not fn.path.startswith('osu::'):
@@ -248,11 +330,27 @@ def r3(ctx, F):
         s = kind_summary(F, fn)
         if s:
             sums[fn.path] = (fn, s)
+    if len(sums) < 2:
+        # a counting function may go through a per-object delta value built by a local helper that holds the match on the object kind
+        for fn in F.fns:
+            if not fn.path.startswith('osu::') or fn.path in sums or fn.kind == 'Closure':
+                continue
+            callees = [F.fn(t['func'].get('path') or '') for _, t in fn.calls() if t['func'].get('local')]
+            if not any(h is not None and any((h.blocks[bb]['t'].get('k') == 'switch') for bb, _ in arms.enum_switches(h)) and
+                       any(prov.prov_of(h).reaching(h.blocks[bb]['t']['discr']['p']['l'], bb, len(h.blocks[bb]['s'])) and
+                           prov.prov_of(h).reaching(h.blocks[bb]['t']['discr']['p']['l'], bb, len(h.blocks[bb]['s']))[0].data.get('rv', {}).get('adt') == OSU_KIND
+                           for bb, _ in arms.enum_switches(h) if h.blocks[bb]['t']['discr'].get('k') in ('copy', 'move'))
+                       for h in callees):
+                continue
+            s = path_kind_summary(F, fn)
+            if s:
+                sums[fn.path] = (fn, s)
     ctx.floor('C14-R3', len(sums), 2, 'functions counting osu! objects by kind (one-shot closure + gradual increment)')
     ref = None
     for path, (fn, s) in sorted(sums.items()):
         ctx.saw(fn)
         kinds = {}
+        ns = _normalised(s)
         for lab in ('Circle', 'Slider', 'Spinner'):
             ones = [f for f, inc in s.get(lab, []) if f in ('n_circles', 'n_sliders', 'n_spinners') and inc == '1']
             kinds[lab] = ones
@@ -264,7 +362,7 @@ def r3(ctx, F):
         if ref is None:
             ref = (path, s)
         else:
-            same = all(s.get(k) == ref[1].get(k) for k in ('Circle', 'Slider', 'Spinner', '*'))
+            same = all(ns.get(k) == _normalised(ref[1]).get(k) for k in ('Circle', 'Slider', 'Spinner'))
             ctx.require(same, 'C14-R3', 'siblings:' + path, 'counts per kind identical to %s: %s' % (ref[0], {k: s.get(k) for k in ('Circle', 'Slider', 'Spinner', '*')}), fn.where(),
                         bad='%s and %s count objects differently: %s vs %s' % (path, ref[0], {k: s.get(k) for k in s}, {k: ref[1].get(k) for k in ref[1]}))
 
